@@ -1409,6 +1409,10 @@ class MethodCtx:
             x, t = self.expr(f.value, env)
             if f.attr == "to_seconds" and t in ("I", "D") and not e.args:
                 return f"(secs O {x})", "F"
+            if f.attr == "get" and t == "dict" and len(e.args) == 1 and not e.keywords:
+                k, kt = self.expr(e.args[0], env)       # d.get(k): None when absent
+                if kt in ZLIKE:
+                    return f"(dfind {x} {k})", ("opt", "Z")
             if f.attr == "get" and t == "dict" and len(e.args) == 2:
                 k, kt = self.expr(e.args[0], env)
                 d, dt = self.expr(e.args[1], env)
